@@ -10,6 +10,14 @@ BASE = ("cd /repo && env -u TRACKLIB_VERIF_TRACE /venv/bin/python -m pytest -ra 
 
 # pid -> (module(s), technique, level text, level note, design ref)
 CHECKS = {
+    "C08": ("GridIndex", "TLA+ exact half-open crossing predicate + transcription of the cell enumeration and unit conversion, "
+            "checked by TLC; registered grids and point/segment/track/neighbourhood queries recorded from SpatialIndex are "
+            "judged by GridIndexTrace.tla (code->spec, extras allowed)",
+            "TLC proves on every lattice segment of several grid shapes that the enumeration covers the exact crossing set and "
+            "that the converted radius covers the disc; every single-segment feature of two small grids (all border/corner end "
+            "points) and random multi-feature indices on 9 shapes (non-square, margin 0/0.25, default resolution) are built for "
+            "real and every recorded call is judged by the three no-omission predicates.",
+            "TLC 1.8; integer coordinates and power-of-two cell sizes so that the implementation's floats are exact", "5/C08"),
     "C06": ("Routing", "TLA+ model: Bellman-Ford definition + the implementation's Dijkstra/lazy-heap as a state machine (all pop "
             "orders) checked by TLC; distance tables of every enumerated multigraph replayed on Network (spec->code); random "
             "graphs judged by RoutingTrace.tla (code->spec)",
